@@ -319,3 +319,29 @@ Proof.
   - apply existsb_exists in H9. destruct H9 as [y [Hy Ey]]. apply Z.eqb_eq in Ey. subst. exact Hy.
   - intros pre post E g Hr. destruct (guarded_sound req seq [] pre post g Hg E Hr) as [H1|[]]. exact H1.
 Qed.
+
+(* ---- every multiaddr form -------------------------------------------------------------- *)
+(* zone prefixes in front and anything behind the IP component do not matter *)
+Lemma to_ip_zone : forall a, to_ip (CZone :: a) = to_ip a.
+Proof. reflexivity. Qed.
+
+Lemma to_ip_ip4_rest : forall v rest, to_ip (CIp4 v :: rest) = Some (IP4 v).
+Proof. reflexivity. Qed.
+
+Lemma to_ip_ip6_rest : forall v rest, to_ip (CIp6 v :: rest) = Some (IP16 v).
+Proof. reflexivity. Qed.
+
+Lemma to_ip_some : forall a b, to_ip a = Some b ->
+  exists zs rest, a = zs ++ (match b with IP4 v => CIp4 v | IP16 v => CIp6 v end) :: rest /\ Forall (fun c => c = CZone) zs.
+Proof.
+  induction a as [|c r IH]; intros b H; cbn in H; [discriminate|].
+  destruct c.
+  - inversion H; subst. exists [], r. split; [reflexivity|constructor].
+  - inversion H; subst. exists [], r. split; [reflexivity|constructor].
+  - destruct (IH b H) as [zs [rest [E F]]]. exists (CZone :: zs), rest. split; [rewrite E; reflexivity|constructor; auto].
+  - discriminate.
+Qed.
+
+Lemma refused_every_form : forall m ma b, to_ip ma = Some b -> ip_refused m b = true ->
+  intercept_addr_dial m (to_ip ma) = false /\ intercept_accept m (to_ip ma) = false.
+Proof. intros m ma b E H. rewrite E. cbn. rewrite H. split; reflexivity. Qed.
